@@ -646,3 +646,559 @@ Ltac pinv_step :=
   | _ => minv_step
   end.
 Ltac pinv := repeat pinv_step.
+
+(* computing forward through a bind / guard (for the liveness direction) *)
+Lemma bind_eq {Er S A B} (m : @M Er S A) (f : A -> @M Er S B) s a s1 : m s = (Ok a, s1) -> bind m f s = f a s1.
+Proof. unfold bind. intros ->. reflexivity. Qed.
+Lemma guard_true {Er S} (b : bool) (e : Er) (s : S) : b = true -> guard b e s = (Ok tt, s).
+Proof. intros ->. reflexivity. Qed.
+
+(* ================================================================== *)
+(* 3. The shared helpers                                               *)
+(* ================================================================== *)
+Section Helpers.
+  Variable E : env.
+  Hypothesis Hc : codec_ok (cdc E).
+
+  (* the entry as the Go code sees it: an absent entry reads as the default token *)
+  Definition tok_or_default (s : mstate) (a k : bytes) : option token :=
+    match cell s a k with [] => Some default_tok | b => dec_tok (cdc E) b end.
+  Definition val_or_0 (t : token) : Z := match t_value t with Some v => v | None => 0%Z end.
+
+  Lemma tod_nil s a k : cell s a k = [] -> tok_or_default s a k = Some default_tok.
+  Proof. unfold tok_or_default. intros ->. reflexivity. Qed.
+  Lemma tod_tok_at s a k : cell s a k <> [] -> tok_or_default s a k = tok_at E s a k.
+  Proof. unfold tok_or_default, tok_at. destruct (cell s a k); [congruence|reflexivity]. Qed.
+  Lemma tok_at_cell s a k t : tok_at E s a k = Some t -> cell s a k <> [] /\ dec_tok (cdc E) (cell s a k) = Some t.
+  Proof. unfold tok_at. destruct (cell s a k); [discriminate|]. intros H. split; [discriminate|exact H]. Qed.
+  Lemma tok_at_none_nil s a k : cell s a k = [] -> tok_at E s a k = None.
+  Proof. unfold tok_at. intros ->. reflexivity. Qed.
+  Lemma tok_at_tod s a k t : tok_at E s a k = Some t -> tok_or_default s a k = Some t.
+  Proof. intros H. destruct (tok_at_cell _ _ _ _ H) as [Hn _]. rewrite tod_tok_at; auto. Qed.
+  Lemma tod_cases s a k t : tok_or_default s a k = Some t ->
+    (cell s a k = [] /\ t = default_tok /\ tok_at E s a k = None) \/ (cell s a k <> [] /\ tok_at E s a k = Some t).
+  Proof.
+    unfold tok_or_default, tok_at. destruct (cell s a k) as [|b0 br].
+    - intros [= <-]. left. auto.
+    - intros H. right. split; [discriminate|exact H].
+  Qed.
+  Lemma tod_wf s a k t : tok_or_default s a k = Some t -> wf_token t.
+  Proof.
+    unfold tok_or_default. destruct (cell s a k) as [|b0 br].
+    - intros [= <-]. apply wf_default_tok.
+    - apply (dec_tok_wf _ Hc).
+  Qed.
+  Lemma tok_at_wf s a k t : tok_at E s a k = Some t -> wf_token t.
+  Proof. intros H. eapply tod_wf, tok_at_tod, H. Qed.
+  Lemma balance_tod s a k t : tok_or_default s a k = Some t -> balance E s a k = val_or_0 t.
+  Proof.
+    unfold tok_or_default, balance, bal_of_bytes, val_or_0. destruct (cell s a k) as [|b0 br].
+    - intros [= <-]. reflexivity.
+    - intros ->. reflexivity.
+  Qed.
+  Lemma balance_tok_at s a k t : tok_at E s a k = Some t -> balance E s a k = val_or_0 t.
+  Proof. intros H. apply balance_tod, tok_at_tod, H. Qed.
+  Lemma balance_tok_at_none s a k : tok_at E s a k = None -> balance E s a k = 0%Z.
+  Proof.
+    unfold tok_at, balance, bal_of_bytes. destruct (cell s a k) as [|b0 br]; [reflexivity|]. intros ->. reflexivity.
+  Qed.
+  Lemma frozen_at_tod s a k t : tok_or_default s a k = Some t -> frozen_at E s a k = frozen_props (t_props t).
+  Proof.
+    intros H. unfold frozen_at. destruct (tod_cases _ _ _ _ H) as [(_ & -> & ->)|(_ & ->)]; reflexivity.
+  Qed.
+  Lemma tod_accts s s' a k : accts s' = accts s -> tok_or_default s' a k = tok_or_default s a k.
+  Proof. unfold tok_or_default. intros H. rewrite (cell_accts _ _ _ _ H). reflexivity. Qed.
+  Lemma rd_tod s s' a k : rd E s s' -> tok_or_default s' a k = tok_or_default s a k.
+  Proof. intros H. apply tod_accts, (rd_accts _ _ _ H). Qed.
+  Lemma wr_tod_other a k v s s' a' k' : wr E a k v s s' -> a' <> a \/ k' <> k -> tok_or_default s' a' k' = tok_or_default s a' k'.
+  Proof. intros H Hn. unfold tok_or_default. rewrite (wr_cell_other _ _ _ _ _ _ _ _ H Hn). reflexivity. Qed.
+
+  (* what a freshly written encoded token reads back as *)
+  Lemma wr_tok_at_enc a k t s s' : wf_token t -> wr E a k (enc_tok (cdc E) t) s s' -> tok_at E s' a k = Some t.
+  Proof.
+    intros Hwf H. rewrite (wr_tok_at_eq _ _ _ _ _ _ H).
+    destruct (enc_tok (cdc E) t) as [|b0 br] eqn:Ee; [exfalso; eapply (enc_tok_nonempty _ Hc); eauto|].
+    rewrite <- Ee. apply (dec_enc_tok _ Hc). exact Hwf.
+  Qed.
+  Lemma wr_balance_enc a k t s s' : wf_token t -> wr E a k (enc_tok (cdc E) t) s s' -> balance E s' a k = val_or_0 t.
+  Proof. intros Hwf H. apply balance_tok_at. eapply wr_tok_at_enc; eauto. Qed.
+  Lemma wr_tok_at_nil a k s s' : wr E a k [] s s' -> tok_at E s' a k = None.
+  Proof. intros H. rewrite (wr_tok_at_eq _ _ _ _ _ _ H). reflexivity. Qed.
+  Lemma wr_roles_at_eq a tok r s s' : wr E a (RP ++ tok) (enc_rol (cdc E) r) s s' -> roles_at E s' a tok = r.
+  Proof.
+    intros H. unfold roles_at. rewrite (wr_cell_eq _ _ _ _ _ _ H).
+    destruct (enc_rol (cdc E) r) as [|b0 br] eqn:Ee.
+    - destruct r as [|r0 rr]; [reflexivity|]. exfalso. eapply (enc_rol_nonempty _ Hc); [|exact Ee]. discriminate.
+    - rewrite <- Ee, (dec_enc_rol _ Hc). reflexivity.
+  Qed.
+
+  (* ---------------- get_esdt_data ---------------- *)
+  Lemma get_esdt_data_ok a key s t s' : get_esdt_data E a key s = (Ok t, s') ->
+    rd E s s' /\ tok_or_default s a key = Some t /\ wf_token t.
+  Proof.
+    unfold get_esdt_data. intros H. apply bind_ok in H as (b & s1 & H1 & H2).
+    apply retrieve_ok in H1 as [-> ->].
+    assert (Hrd : rd E s s' /\ tok_or_default s a key = Some t).
+    { unfold tok_or_default. destruct (cell s a key) as [|b0 br].
+      - apply ret_ok in H2 as [-> ->]. split; [apply rd_refl|reflexivity].
+      - apply unmarshal_tok_ok in H2 as [Hd Hr]. auto. }
+    destruct Hrd as [Hr Ht]. split; [exact Hr|]. split; [exact Ht|]. eapply tod_wf; eauto.
+  Qed.
+  Lemma get_esdt_data_succeeds a key s t : plan E (calls s) = false -> tok_or_default s a key = Some t ->
+    exists s', get_esdt_data E a key s = (Ok t, s').
+  Proof.
+    intros Hp Ht. unfold get_esdt_data. rewrite (bind_eq _ _ _ _ _ (retrieve_eq a key s)).
+    unfold tok_or_default in Ht. destruct (cell s a key) as [|b0 br].
+    - inversion Ht; subst. eexists. reflexivity.
+    - apply unmarshal_tok_succeeds; auto.
+  Qed.
+
+  (* ---------------- check_froze_and_pause ---------------- *)
+  Lemma is_paused_eq key s : is_paused key s = (Ok (paused_at s key), s).
+  Proof. reflexivity. Qed.
+  Lemma is_paused_ok key s p s' : is_paused key s = (Ok p, s') -> p = paused_at s key /\ s' = s.
+  Proof. rewrite is_paused_eq. intros H; inversion H; auto. Qed.
+  Lemma check_froze_and_pause_ok addr key t rae s u s' :
+    check_froze_and_pause addr key t rae s = (Ok u, s') ->
+    s' = s /\ (rae = false -> addr <> SC -> frozen_props (t_props t) = false /\ paused_at s key = false).
+  Proof.
+    unfold check_froze_and_pause. destruct rae.
+    - intros H. apply ret_ok in H as [_ ->]. split; [reflexivity|discriminate].
+    - destruct (beqb_spec addr SC) as [Heq|Hne].
+      + intros H. apply ret_ok in H as [_ ->]. split; [reflexivity|]. intros _ Hx. contradiction.
+      + intros H. apply bind_ok in H as (u1 & s1 & H1 & H2). apply guard_ok in H1 as [Hf ->].
+        apply bind_ok in H2 as (p & s2 & H2 & H3). apply is_paused_ok in H2 as [-> ->].
+        apply guard_ok in H3 as [Hp ->]. split; [reflexivity|]. intros _ _. split.
+        * destruct (frozen_props (t_props t)); [discriminate|reflexivity].
+        * destruct (paused_at s key); [discriminate|reflexivity].
+  Qed.
+  Lemma check_froze_and_pause_succeeds addr key t rae s :
+    (rae = false -> addr <> SC -> frozen_props (t_props t) = false /\ paused_at s key = false) ->
+    check_froze_and_pause addr key t rae s = (Ok tt, s).
+  Proof.
+    unfold check_froze_and_pause. destruct rae; [reflexivity|].
+    destruct (beqb_spec addr SC) as [Heq|Hne]; [reflexivity|]. intros H.
+    destruct (H eq_refl Hne) as [Hf Hp].
+    rewrite (bind_eq _ _ _ _ _ (guard_true _ _ _ (f_equal negb Hf))).
+    rewrite (bind_eq _ _ _ _ _ (is_paused_eq key s)). apply guard_true. rewrite Hp. reflexivity.
+  Qed.
+  (* the only way it fails *)
+  Lemma check_froze_and_pause_result addr key t rae s :
+    check_froze_and_pause addr key t rae s = (Ok tt, s)
+    \/ (rae = false /\ addr <> SC /\ frozen_props (t_props t) = true /\ check_froze_and_pause addr key t rae s = (Err EFrozenForAccount, s))
+    \/ (rae = false /\ addr <> SC /\ frozen_props (t_props t) = false /\ paused_at s key = true /\ check_froze_and_pause addr key t rae s = (Err ETokenIsPaused, s)).
+  Proof.
+    destruct (frozen_props (t_props t)) eqn:Hf; [|destruct (paused_at s key) eqn:Hp].
+    3: { left. apply check_froze_and_pause_succeeds. auto. }
+    all: unfold check_froze_and_pause; destruct rae; [left; reflexivity|];
+      destruct (beqb_spec addr SC) as [Heq|Hne]; [left; reflexivity|]; right.
+    - left. repeat split; auto. unfold bind, guard. rewrite Hf. reflexivity.
+    - right. repeat split; auto.
+      rewrite (bind_eq _ _ _ _ _ (guard_true _ _ _ (f_equal negb Hf))).
+      rewrite (bind_eq _ _ _ _ _ (is_paused_eq key s)). rewrite Hp. reflexivity.
+  Qed.
+
+  (* ---------------- save_esdt_data ---------------- *)
+  Lemma save_esdt_data_ok a t key s u s' : save_esdt_data E a t key s = (Ok u, s') ->
+    exists v, t_value t = Some v
+      /\ wr E a key (if ((v =? 0)%Z && all_zero (t_props t))%bool then [] else enc_tok (cdc E) t) s s'.
+  Proof.
+    unfold save_esdt_data. intros H. apply bind_ok in H as (v & s1 & H1 & H2).
+    apply val_of_ok in H1 as [Hv ->]. exists v. split; [exact Hv|].
+    destruct ((v =? 0)%Z && all_zero (t_props t))%bool.
+    - apply save_kv_ok in H2. exact H2.
+    - apply bind_ok in H2 as (b & s2 & H2 & H3). apply marshal_tok_ok in H2 as [-> Hr].
+      apply save_kv_ok in H3. eapply rd_wr; eauto.
+  Qed.
+  Lemma save_esdt_data_succeeds a t key s v : no_faults E -> t_value t = Some v ->
+    exists s', save_esdt_data E a t key s = (Ok tt, s').
+  Proof.
+    intros Hnf Hv. unfold save_esdt_data. rewrite (bind_eq _ _ _ _ _ (val_of_succeeds _ _ s Hv)).
+    destruct ((v =? 0)%Z && all_zero (t_props t))%bool.
+    - apply save_kv_succeeds, Hnf.
+    - destruct (marshal_tok_succeeds E t s (Hnf _)) as (s1 & H1). rewrite (bind_eq _ _ _ _ _ H1).
+      apply save_kv_succeeds, Hnf.
+  Qed.
+  (* observable effect *)
+  Lemma save_esdt_data_tok_at a t key s u s' : wf_token t -> save_esdt_data E a t key s = (Ok u, s') ->
+    tok_at E s' a key = (if ((val_or_0 t =? 0)%Z && all_zero (t_props t))%bool then None else Some t).
+  Proof.
+    intros Hwf H. apply save_esdt_data_ok in H as (v & Hv & Hw). unfold val_or_0. rewrite Hv.
+    destruct ((v =? 0)%Z && all_zero (t_props t))%bool.
+    - eapply wr_tok_at_nil; eauto.
+    - eapply wr_tok_at_enc; eauto.
+  Qed.
+
+  (* ---------------- add_to_esdt_balance ---------------- *)
+  (* raw form: the entry read, and the single cell written *)
+  Lemma add_to_esdt_balance_inv a key delta rae s u s' :
+    add_to_esdt_balance E a key delta rae s = (Ok u, s') ->
+    exists t v, tok_or_default s a key = Some t /\ wf_token t /\ t_type t = C.Fungible /\ t_value t = Some v
+      /\ (0 <= v + delta)%Z
+      /\ (rae = false -> a <> SC -> frozen_props (t_props t) = false /\ paused_at s key = false)
+      /\ wr E a key (if ((v + delta =? 0)%Z && all_zero (t_props t))%bool then []
+                     else enc_tok (cdc E) (set_value t (Some (v + delta)%Z))) s s'.
+  Proof.
+    unfold add_to_esdt_balance. intros H. apply bind_ok in H as (t & s1 & H1 & H2).
+    apply get_esdt_data_ok in H1 as (Hr & Ht & Hwf).
+    apply bind_ok in H2 as (u1 & s2 & H2 & H3). apply guard_ok in H2 as [Hty ->].
+    apply bind_ok in H3 as (u2 & s2 & H3 & H4). apply check_froze_and_pause_ok in H3 as [-> Hfp].
+    apply bind_ok in H4 as (v & s2 & H4 & H5). apply val_of_ok in H4 as [Hv ->].
+    cbv zeta in H5. apply bind_ok in H5 as (u3 & s2 & H5 & H6). apply guard_ok in H5 as [Hge ->].
+    apply save_esdt_data_ok in H6 as (v' & Hv' & Hw). simpl in Hv'. inversion Hv'; subst v'. clear Hv'.
+    exists t, v. split; [exact Ht|]. split; [exact Hwf|]. split; [apply N.eqb_eq; exact Hty|].
+    split; [exact Hv|]. split; [lia|]. split.
+    - intros H1 H2. rewrite <- (rd_paused_at _ _ _ key Hr). auto.
+    - eapply rd_wr; eauto.
+  Qed.
+  (* observable form *)
+  Lemma add_to_esdt_balance_ok a key delta rae s u s' :
+    add_to_esdt_balance E a key delta rae s = (Ok u, s') ->
+    (0 <= balance E s a key + delta)%Z
+    /\ balance E s' a key = (balance E s a key + delta)%Z
+    /\ (exists t, tok_or_default s a key = Some t /\ wf_token t /\ t_type t = C.Fungible /\ t_value t <> None
+          /\ tok_at E s' a key =
+             (if ((balance E s a key + delta =? 0)%Z && all_zero (t_props t))%bool then None
+              else Some (set_value t (Some (balance E s a key + delta)%Z))))
+    /\ (rae = false -> a <> SC -> frozen_at E s a key = false /\ paused_at s key = false)
+    /\ unchanged_except (fun a' k' => a' = a /\ k' = key) (fun _ => False) s s'
+    /\ clean E s s'.
+  Proof.
+    intros H. apply add_to_esdt_balance_inv in H as (t & v & Ht & Hwf & Hty & Hv & Hge & Hfp & Hw).
+    assert (Hb : balance E s a key = v).
+    { rewrite (balance_tod _ _ _ _ Ht). unfold val_or_0. rewrite Hv. reflexivity. }
+    rewrite Hb. split; [exact Hge|].
+    assert (Hta : tok_at E s' a key =
+             (if ((v + delta =? 0)%Z && all_zero (t_props t))%bool then None
+              else Some (set_value t (Some (v + delta)%Z)))).
+    { destruct ((v + delta =? 0)%Z && all_zero (t_props t))%bool.
+      - eapply wr_tok_at_nil; eauto.
+      - eapply wr_tok_at_enc; eauto. }
+    split.
+    { destruct ((v + delta =? 0)%Z && all_zero (t_props t))%bool eqn:Ez.
+      - rewrite (balance_tok_at_none _ _ _ Hta). apply andb_prop in Ez. lia.
+      - rewrite (balance_tok_at _ _ _ _ Hta). reflexivity. }
+    split.
+    { exists t. split; [exact Ht|]. split; [exact Hwf|]. split; [exact Hty|]. split; [congruence|exact Hta]. }
+    split.
+    { rewrite (frozen_at_tod _ _ _ _ Ht). exact Hfp. }
+    split; [eapply wr_unchanged; eauto|eapply wr_clean; eauto].
+  Qed.
+  Lemma add_to_esdt_balance_succeeds a key delta rae s t v :
+    no_faults E ->
+    tok_or_default s a key = Some t -> t_type t = C.Fungible -> t_value t = Some v ->
+    (rae = false -> a <> SC -> frozen_props (t_props t) = false /\ paused_at s key = false) ->
+    (0 <= v + delta)%Z ->
+    exists s', add_to_esdt_balance E a key delta rae s = (Ok tt, s').
+  Proof.
+    intros Hnf Ht Hty Hv Hfp Hge. unfold add_to_esdt_balance.
+    destruct (get_esdt_data_succeeds a key s t (Hnf _) Ht) as (s1 & H1).
+    rewrite (bind_eq _ _ _ _ _ H1). apply get_esdt_data_ok in H1 as (Hr & _ & _).
+    rewrite (bind_eq _ _ _ _ _ (guard_true _ _ _ (proj2 (N.eqb_eq _ _) Hty))).
+    rewrite (bind_eq _ _ _ _ _ (check_froze_and_pause_succeeds a key t rae s1
+       (fun h1 h2 => eq_ind_r (fun p => _ /\ p = false) (Hfp h1 h2) (rd_paused_at _ _ _ key Hr)))).
+    rewrite (bind_eq _ _ _ _ _ (val_of_succeeds _ _ s1 Hv)). cbv zeta.
+    rewrite (bind_eq _ _ _ _ _ (guard_true _ _ _ (proj2 (Z.leb_le _ _) Hge))).
+    eapply save_esdt_data_succeeds; [exact Hnf|reflexivity].
+  Qed.
+  (* in terms of observables: frozen_at / balance of the pre-state *)
+  Lemma add_to_esdt_balance_succeeds' a key delta rae s :
+    no_faults E ->
+    (cell s a key = [] \/ exists t, tok_at E s a key = Some t /\ t_type t = C.Fungible /\ t_value t <> None) ->
+    (rae = false -> a <> SC -> frozen_at E s a key = false /\ paused_at s key = false) ->
+    (0 <= balance E s a key + delta)%Z ->
+    exists s', add_to_esdt_balance E a key delta rae s = (Ok tt, s').
+  Proof.
+    intros Hnf Hent Hfp Hge.
+    assert (exists t v, tok_or_default s a key = Some t /\ t_type t = C.Fungible /\ t_value t = Some v) as (t & v & Ht & Hty & Hv).
+    { destruct Hent as [Hn|(t & Ht & Hty & Hv)].
+      - exists default_tok, 0%Z. split; [apply tod_nil; exact Hn|split; reflexivity].
+      - destruct (t_value t) as [v|] eqn:Ev; [|congruence]. exists t, v. split; [apply tok_at_tod; exact Ht|auto]. }
+    eapply add_to_esdt_balance_succeeds; eauto.
+    - rewrite <- (frozen_at_tod _ _ _ _ Ht). exact Hfp.
+    - rewrite (balance_tod _ _ _ _ Ht) in Hge. unfold val_or_0 in Hge. rewrite Hv in Hge. exact Hge.
+  Qed.
+  (* ---------------- NFT entries ---------------- *)
+  Lemma get_nft_on_destination_ok a key nonce s t isNew s' :
+    get_nft_on_destination E a key nonce s = (Ok (t, isNew), s') ->
+    rd E s s' /\ wf_token t /\ tok_or_default s a (nft_key key nonce) = Some t
+    /\ (if isNew then cell s a (nft_key key nonce) = [] /\ t = default_tok
+        else tok_at E s a (nft_key key nonce) = Some t).
+  Proof.
+    unfold get_nft_on_destination. intros H. apply bind_ok in H as (b & s1 & H1 & H2).
+    apply retrieve_ok in H1 as [-> ->].
+    destruct (cell s a (nft_key key nonce)) as [|b0 br] eqn:Ec.
+    - apply ret_ok in H2 as [H2 ->]. inversion H2; subst.
+      split; [apply rd_refl|]. split; [apply wf_default_tok|]. split; [apply tod_nil; exact Ec|auto].
+    - apply bind_ok in H2 as (t1 & s2 & H2 & H3). apply unmarshal_tok_ok in H2 as [Hd Hr].
+      apply ret_ok in H3 as [H3 ->]. inversion H3; subst t1 isNew.
+      assert (Ht : tok_at E s a (nft_key key nonce) = Some t) by (unfold tok_at; rewrite Ec; exact Hd).
+      split; [exact Hr|]. split; [eapply tok_at_wf; eauto|]. split; [apply tok_at_tod; exact Ht|exact Ht].
+  Qed.
+  Lemma get_nft_on_destination_succeeds a key nonce s t : plan E (calls s) = false ->
+    tok_or_default s a (nft_key key nonce) = Some t ->
+    exists s', get_nft_on_destination E a key nonce s =
+               (Ok (t, match cell s a (nft_key key nonce) with [] => true | _ => false end), s').
+  Proof.
+    intros Hp Ht. unfold get_nft_on_destination. rewrite (bind_eq _ _ _ _ _ (retrieve_eq a _ s)).
+    unfold tok_or_default in Ht. destruct (cell s a (nft_key key nonce)) as [|b0 br].
+    - inversion Ht; subst. eexists. reflexivity.
+    - destruct (unmarshal_tok_succeeds E _ _ s Hp Ht) as (s1 & H1). rewrite (bind_eq _ _ _ _ _ H1).
+      eexists. reflexivity.
+  Qed.
+
+  Lemma get_nft_on_sender_ok a key nonce s t s' :
+    get_nft_on_sender E a key nonce s = (Ok t, s') ->
+    rd E s s' /\ wf_token t /\ tok_at E s a (nft_key key nonce) = Some t
+    /\ ((0 < nonce)%N -> exists m, t_meta t = Some m) /\ (nonce = 0%N -> t_meta t = None).
+  Proof.
+    unfold get_nft_on_sender. intros H. apply bind_ok in H as ([t0 isNew] & s1 & H1 & H2).
+    apply get_nft_on_destination_ok in H1 as (Hr & Hwf & _ & Hcase).
+    apply bind_ok in H2 as (u1 & s2 & H2 & H3). apply guard_ok in H2 as [Hn ->].
+    apply bind_ok in H3 as (u2 & s2 & H3 & H4). apply guard_ok in H3 as [Hm1 ->].
+    apply bind_ok in H4 as (u3 & s2 & H4 & H5). apply guard_ok in H4 as [Hm2 ->].
+    apply ret_ok in H5 as [-> ->].
+    destruct isNew; [discriminate|].
+    split; [exact Hr|]. split; [exact Hwf|]. split; [exact Hcase|].
+    destruct (t_meta t0) as [m|]; split.
+    - intros _. eauto.
+    - intros ->. discriminate.
+    - intros Hpos. destruct (0 <? nonce)%N eqn:E0; [discriminate|lia].
+    - reflexivity.
+  Qed.
+  Lemma get_nft_on_sender_succeeds a key nonce s t : plan E (calls s) = false ->
+    tok_at E s a (nft_key key nonce) = Some t ->
+    ((0 < nonce)%N -> t_meta t <> None) -> (nonce = 0%N -> t_meta t = None) ->
+    exists s', get_nft_on_sender E a key nonce s = (Ok t, s').
+  Proof.
+    intros Hp Ht Hm1 Hm2. unfold get_nft_on_sender.
+    destruct (get_nft_on_destination_succeeds a key nonce s t Hp (tok_at_tod _ _ _ _ Ht)) as (s1 & H1).
+    destruct (tok_at_cell _ _ _ _ Ht) as [Hne _].
+    destruct (cell s a (nft_key key nonce)) as [|b0 br]; [congruence|].
+    rewrite (bind_eq _ _ _ _ _ H1). rewrite (bind_eq _ _ _ _ _ (guard_true _ _ _ eq_refl)).
+    assert (G1 : negb ((0 <? nonce)%N && match t_meta t with None => true | Some _ => false end) = true).
+    { destruct (t_meta t); [rewrite andb_false_r; reflexivity|].
+      destruct (0 <? nonce)%N eqn:E0; [|reflexivity]. exfalso. apply Hm1; [lia|reflexivity]. }
+    assert (G2 : negb ((nonce =? 0)%N && match t_meta t with None => false | Some _ => true end) = true).
+    { destruct (nonce =? 0)%N eqn:E0; [|reflexivity]. rewrite Hm2 by lia. reflexivity. }
+    rewrite (bind_eq _ _ _ _ _ (guard_true _ _ _ G1)). rewrite (bind_eq _ _ _ _ _ (guard_true _ _ _ G2)).
+    eexists. reflexivity.
+  Qed.
+
+  Lemma save_nft_ok a key t rae s b s' :
+    save_nft E a key t rae s = (Ok b, s') ->
+    exists v, t_value t = Some v
+      /\ b = (if (v <=? 0)%Z then [] else enc_tok (cdc E) t)
+      /\ wr E a (nft_key key (tok_nonce t)) b s s'
+      /\ (rae = false -> a <> SC ->
+          frozen_props (t_props t) = false /\ paused_at s key = false /\ paused_at s (nft_key key (tok_nonce t)) = false).
+  Proof.
+    unfold save_nft. intros H. apply bind_ok in H as (u1 & s1 & H1 & H2).
+    apply check_froze_and_pause_ok in H1 as [-> Hfp1]. cbv zeta in H2.
+    apply bind_ok in H2 as (u2 & s1 & H2 & H3). apply check_froze_and_pause_ok in H2 as [-> Hfp2].
+    apply bind_ok in H3 as (v & s1 & H3 & H4). apply val_of_ok in H3 as [Hv ->].
+    exists v. split; [exact Hv|].
+    assert (Hfp : rae = false -> a <> SC ->
+          frozen_props (t_props t) = false /\ paused_at s key = false /\ paused_at s (nft_key key (tok_nonce t)) = false).
+    { intros h1 h2. destruct (Hfp1 h1 h2) as [? ?]. destruct (Hfp2 h1 h2) as [? ?]. auto. }
+    destruct (v <=? 0)%Z.
+    - apply bind_ok in H4 as (u3 & s1 & H4 & H5). apply save_kv_ok in H4. apply ret_ok in H5 as [-> ->]. auto.
+    - apply bind_ok in H4 as (b1 & s1 & H4 & H5). apply marshal_tok_ok in H4 as [-> Hr].
+      apply bind_ok in H5 as (u3 & s2 & H5 & H6). apply save_kv_ok in H5. apply ret_ok in H6 as [-> ->].
+      split; [reflexivity|]. split; [eapply rd_wr; eauto|exact Hfp].
+  Qed.
+  (* observables after save_nft *)
+  Lemma save_nft_tok_at a key t rae s b s' : wf_token t -> save_nft E a key t rae s = (Ok b, s') ->
+    tok_at E s' a (nft_key key (tok_nonce t)) = (if (val_or_0 t <=? 0)%Z then None else Some t).
+  Proof.
+    intros Hwf H. apply save_nft_ok in H as (v & Hv & -> & Hw & _). unfold val_or_0. rewrite Hv.
+    destruct (v <=? 0)%Z; [eapply wr_tok_at_nil|eapply wr_tok_at_enc]; eauto.
+  Qed.
+  Lemma save_nft_balance a key t rae s b s' : wf_token t -> save_nft E a key t rae s = (Ok b, s') ->
+    balance E s' a (nft_key key (tok_nonce t)) = Z.max 0 (val_or_0 t).
+  Proof.
+    intros Hwf H. pose proof (save_nft_tok_at _ _ _ _ _ _ _ Hwf H) as Ht.
+    destruct (val_or_0 t <=? 0)%Z eqn:Ev.
+    - rewrite (balance_tok_at_none _ _ _ Ht). lia.
+    - rewrite (balance_tok_at _ _ _ _ Ht). lia.
+  Qed.
+  Lemma save_nft_succeeds a key t rae s v : no_faults E -> t_value t = Some v ->
+    (rae = false -> a <> SC ->
+       frozen_props (t_props t) = false /\ paused_at s key = false /\ paused_at s (nft_key key (tok_nonce t)) = false) ->
+    exists b s', save_nft E a key t rae s = (Ok b, s').
+  Proof.
+    intros Hnf Hv Hfp. unfold save_nft.
+    rewrite (bind_eq _ _ _ _ _ (check_froze_and_pause_succeeds a key t rae s
+      (fun h1 h2 => conj (proj1 (Hfp h1 h2)) (proj1 (proj2 (Hfp h1 h2)))))). cbv zeta.
+    rewrite (bind_eq _ _ _ _ _ (check_froze_and_pause_succeeds a _ t rae s
+      (fun h1 h2 => conj (proj1 (Hfp h1 h2)) (proj2 (proj2 (Hfp h1 h2)))))).
+    rewrite (bind_eq _ _ _ _ _ (val_of_succeeds _ _ s Hv)).
+    destruct (v <=? 0)%Z.
+    - destruct (save_kv_succeeds E a (nft_key key (tok_nonce t)) [] s (Hnf _)) as (s1 & H1).
+      rewrite (bind_eq _ _ _ _ _ H1). eexists. eexists. reflexivity.
+    - destruct (marshal_tok_succeeds E t s (Hnf _)) as (s1 & H1). rewrite (bind_eq _ _ _ _ _ H1).
+      destruct (save_kv_succeeds E a (nft_key key (tok_nonce t)) (enc_tok (cdc E) t) s1 (Hnf _)) as (s2 & H2).
+      rewrite (bind_eq _ _ _ _ _ H2). eexists. eexists. reflexivity.
+  Qed.
+
+  (* ---------------- NFT-create counter ---------------- *)
+  Lemma get_latest_nonce_eq a tok s : get_latest_nonce a tok s = (Ok (counter_at s a tok), s).
+  Proof.
+    unfold get_latest_nonce. rewrite (bind_eq _ _ _ _ _ (retrieve_eq a _ s)). unfold counter_at.
+    destruct (cell s a (NP ++ tok)); reflexivity.
+  Qed.
+  Lemma get_latest_nonce_ok a tok s n s' : get_latest_nonce a tok s = (Ok n, s') -> n = counter_at s a tok /\ s' = s.
+  Proof. rewrite get_latest_nonce_eq. intros H; inversion H; auto. Qed.
+  Lemma counter_at_lt s a tok : (counter_at s a tok < two64)%N.
+  Proof. unfold counter_at. destruct (cell s a (NP ++ tok)); [reflexivity|apply bigU64_lt]. Qed.
+  Lemma save_latest_nonce_ok a tok n s u s' : save_latest_nonce E a tok n s = (Ok u, s') ->
+    wr E a (NP ++ tok) (u64_bytes n) s s' /\ counter_at s' a tok = u64 n.
+  Proof.
+    unfold save_latest_nonce. intros H. apply save_kv_ok in H. split; [exact H|]. eapply wr_counter_at_eq; eauto.
+  Qed.
+  Lemma save_latest_nonce_succeeds a tok n s : plan E (calls s) = false -> exists s', save_latest_nonce E a tok n s = (Ok tt, s').
+  Proof. apply save_kv_succeeds. Qed.
+
+  (* ---------------- roles ---------------- *)
+  Lemma get_roles_ok a key s r isNew s' : get_roles E a key s = (Ok (r, isNew), s') ->
+    rd E s s' /\ (if isNew then cell s a key = [] /\ r = []
+                  else cell s a key <> [] /\ dec_rol (cdc E) (cell s a key) = Some r).
+  Proof.
+    unfold get_roles. intros H. apply bind_ok in H as (b & s1 & H1 & H2).
+    apply retrieve_ok in H1 as [-> ->]. destruct (cell s a key) as [|b0 br] eqn:Ec.
+    - apply ret_ok in H2 as [H2 ->]. inversion H2; subst. split; [apply rd_refl|auto].
+    - apply bind_ok in H2 as (r1 & s2 & H2 & H3). apply unmarshal_rol_ok in H2 as [Hd Hr].
+      apply ret_ok in H3 as [H3 ->]. inversion H3; subst r1 isNew. split; [exact Hr|]. split; [discriminate|exact Hd].
+  Qed.
+  Lemma get_roles_roles_at a tok s r isNew s' : get_roles E a (RP ++ tok) s = (Ok (r, isNew), s') ->
+    r = roles_at E s a tok /\ rd E s s'.
+  Proof.
+    intros H. apply get_roles_ok in H as [Hr Hcase]. split; [|exact Hr]. unfold roles_at.
+    destruct isNew.
+    - destruct Hcase as [-> ->]. reflexivity.
+    - destruct Hcase as [Hne Hd]. destruct (cell s a (RP ++ tok)); [congruence|]. rewrite Hd. reflexivity.
+  Qed.
+  Lemma get_roles_succeeds a key s : plan E (calls s) = false ->
+    (cell s a key = [] \/ dec_rol (cdc E) (cell s a key) <> None) ->
+    exists r isNew s', get_roles E a key s = (Ok (r, isNew), s').
+  Proof.
+    intros Hp Hd. unfold get_roles. rewrite (bind_eq _ _ _ _ _ (retrieve_eq a key s)).
+    destruct (cell s a key) as [|b0 br].
+    - do 3 eexists. reflexivity.
+    - destruct Hd as [Hd|Hd]; [discriminate|]. destruct (dec_rol (cdc E) (b0 :: br)) as [r|] eqn:Er; [|congruence].
+      destruct (unmarshal_rol_succeeds E _ _ s Hp Er) as (s1 & H1). rewrite (bind_eq _ _ _ _ _ H1).
+      do 3 eexists. reflexivity.
+  Qed.
+  Lemma check_allowed_ok snd a tok role s u s' : check_allowed E snd a tok role s = (Ok u, s') ->
+    snd = true /\ has_role E s a tok role = true /\ rd E s s'.
+  Proof.
+    unfold check_allowed. intros H. apply bind_ok in H as (u1 & s1 & H1 & H2). apply guard_ok in H1 as [Hs ->].
+    apply bind_ok in H2 as ([r isNew] & s1 & H2 & H3). apply get_roles_roles_at in H2 as [-> Hr].
+    apply bind_ok in H3 as (u2 & s2 & H3 & H4). apply guard_ok in H3 as [_ ->]. apply guard_ok in H4 as [Hin ->].
+    auto.
+  Qed.
+  Lemma check_allowed_succeeds snd a tok role s : no_faults E -> snd = true -> has_role E s a tok role = true ->
+    exists s', check_allowed E snd a tok role s = (Ok tt, s').
+  Proof.
+    intros Hnf -> Hh. unfold check_allowed. rewrite (bind_eq _ _ _ _ _ (guard_true _ _ _ eq_refl)).
+    assert (Hd : cell s a (RP ++ tok) <> [] /\ dec_rol (cdc E) (cell s a (RP ++ tok)) <> None).
+    { unfold has_role, roles_at in Hh. destruct (cell s a (RP ++ tok)) as [|b0 br]; [discriminate|].
+      split; [discriminate|]. destruct (dec_rol (cdc E) (b0 :: br)); [discriminate|simpl in Hh; discriminate]. }
+    destruct Hd as [Hne Hd].
+    destruct (get_roles_succeeds a (RP ++ tok) s (Hnf _) (or_intror Hd)) as (r & isNew & s1 & H1).
+    rewrite (bind_eq _ _ _ _ _ H1). cbv beta iota.
+    pose proof (get_roles_roles_at _ _ _ _ _ _ H1) as [-> _]. apply get_roles_ok in H1 as [_ Hcase].
+    destruct isNew; [destruct Hcase; contradiction|].
+    rewrite (bind_eq _ _ _ _ _ (guard_true _ _ _ eq_refl)). exists s1. apply guard_true. exact Hh.
+  Qed.
+  Lemma has_role_In s a tok role : has_role E s a tok role = true <-> In role (roles_at E s a tok).
+  Proof. apply bytes_in_true. Qed.
+  Lemma save_roles_ok a key r s u s' : save_roles E a key r s = (Ok u, s') -> wr E a key (enc_rol (cdc E) r) s s'.
+  Proof.
+    unfold save_roles. intros H. apply bind_ok in H as (b & s1 & H1 & H2).
+    apply marshal_rol_ok in H1 as [-> Hr]. apply save_kv_ok in H2. eapply rd_wr; eauto.
+  Qed.
+  Lemma save_roles_roles_at a tok r s u s' : save_roles E a (RP ++ tok) r s = (Ok u, s') -> roles_at E s' a tok = r.
+  Proof. intros H. apply save_roles_ok in H. eapply wr_roles_at_eq; eauto. Qed.
+  Lemma save_roles_succeeds a key r s : no_faults E -> exists s', save_roles E a key r s = (Ok tt, s').
+  Proof.
+    intros Hnf. unfold save_roles. destruct (marshal_rol_succeeds E r s (Hnf _)) as (s1 & H1).
+    rewrite (bind_eq _ _ _ _ _ H1). apply save_kv_succeeds, Hnf.
+  Qed.
+
+  (* ---------------- check_payable / add_nft_to_destination (Ledger/Transfers.v) ---------------- *)
+  Lemma check_payable_ok verify a s u s' : check_payable E verify a s = (Ok u, s') ->
+    rd E s s' /\ (verify = true -> payable E a = PayYes).
+  Proof.
+    unfold check_payable. destruct verify.
+    - intros H. apply bind_ok in H as (p & s1 & H1 & H2). apply is_payable_ok in H1 as [Hp Hr].
+      apply guard_ok in H2 as [-> ->]. auto.
+    - intros H. apply ret_ok in H as [_ ->]. split; [apply rd_refl|discriminate].
+  Qed.
+  Lemma check_payable_succeeds verify a s : plan E (calls s) = false -> (verify = true -> payable E a = PayYes) ->
+    exists s', check_payable E verify a s = (Ok tt, s').
+  Proof.
+    intros Hp Hv. unfold check_payable. destruct verify; [|eexists; reflexivity].
+    assert (Hne : payable E a <> PayErr) by (rewrite Hv by reflexivity; discriminate).
+    destruct (is_payable_succeeds E a s Hp Hne) as (s1 & H1). rewrite (bind_eq _ _ _ _ _ H1).
+    rewrite Hv by reflexivity. eexists. reflexivity.
+  Qed.
+
+  Lemma add_nft_to_destination_ok dst key t verify rae s t' s' :
+    add_nft_to_destination E dst key t verify rae s = (Ok t', s') ->
+    exists cur v cv,
+      tok_or_default s dst (nft_key key (tok_nonce t)) = Some cur /\ wf_token cur
+      /\ t_value t = Some v /\ t_value cur = Some cv
+      /\ t' = set_value t (Some (v + cv)%Z)
+      /\ (verify = true -> payable E dst = PayYes)
+      /\ (forall cm, t_meta cur = Some cm -> exists m, t_meta t = Some m /\ md_hash cm = md_hash m)
+      /\ (rae = false -> dst <> SC ->
+          frozen_props (t_props cur) = false /\ frozen_props (t_props t) = false
+          /\ paused_at s key = false /\ paused_at s (nft_key key (tok_nonce t)) = false)
+      /\ wr E dst (nft_key key (tok_nonce t))
+            (if (v + cv <=? 0)%Z then [] else enc_tok (cdc E) (set_value t (Some (v + cv)%Z))) s s'.
+  Proof.
+    unfold add_nft_to_destination. intros H. apply bind_ok in H as (u1 & s1 & H1 & H2).
+    apply check_payable_ok in H1 as [Hr1 Hpay].
+    apply bind_ok in H2 as ([cur isNew] & s2 & H2 & H3).
+    apply get_nft_on_destination_ok in H2 as (Hr2 & Hwf & Htod & _).
+    apply bind_ok in H3 as (u2 & s3 & H3 & H4). apply check_froze_and_pause_ok in H3 as [-> Hfp1].
+    apply bind_ok in H4 as (u3 & s3 & H4 & H5).
+    assert (Hs3 : s3 = s2 /\ forall cm, t_meta cur = Some cm -> exists m, t_meta t = Some m /\ md_hash cm = md_hash m).
+    { destruct (t_meta cur) as [cm|].
+      - apply bind_ok in H4 as (m & s4 & H4 & H6). apply meta_of_ok in H4 as [Hm ->].
+        apply guard_ok in H6 as [Hh ->]. split; [reflexivity|]. intros cm' [= <-]. exists m. split; [exact Hm|].
+        apply beqb_true. exact Hh.
+      - apply ret_ok in H4 as [_ ->]. split; [reflexivity|discriminate]. }
+    destruct Hs3 as [-> Hhash]. clear H4.
+    apply bind_ok in H5 as (v & s3 & H5 & H6). apply val_of_ok in H5 as [Hv ->].
+    apply bind_ok in H6 as (cv & s3 & H6 & H7). apply val_of_ok in H6 as [Hcv ->].
+    cbv zeta in H7. apply bind_ok in H7 as (b & s3 & H7 & H8). apply ret_ok in H8 as [-> ->].
+    apply save_nft_ok in H7 as (v' & Hv' & -> & Hw & Hfp2). simpl in Hv'. inversion Hv'; subst v'. clear Hv'.
+    rewrite tok_nonce_set_value in *.
+    assert (Hr : rd E s s2) by (eapply rd_trans; eauto).
+    exists cur, v, cv. rewrite <- (rd_tod _ _ _ _ Hr1). split; [exact Htod|]. split; [exact Hwf|].
+    split; [exact Hv|]. split; [exact Hcv|]. split; [reflexivity|]. split; [exact Hpay|]. split; [exact Hhash|].
+    split.
+    - intros h1 h2. destruct (Hfp1 h1 h2) as [F1 P1]. destruct (Hfp2 h1 h2) as (F2 & P2 & P3).
+      rewrite <- !(rd_paused_at _ _ _ _ Hr). auto.
+    - eapply rd_wr; eauto.
+  Qed.
+  Lemma add_nft_to_destination_balance dst key t verify rae s t' s' : wf_token t ->
+    add_nft_to_destination E dst key t verify rae s = (Ok t', s') ->
+    balance E s' dst (nft_key key (tok_nonce t)) = Z.max 0 (val_or_0 t + balance E s dst (nft_key key (tok_nonce t)))
+    /\ val_or_0 t' = (val_or_0 t + balance E s dst (nft_key key (tok_nonce t)))%Z
+    /\ unchanged_except (fun a' k' => a' = dst /\ k' = nft_key key (tok_nonce t)) (fun _ => False) s s'
+    /\ clean E s s'.
+  Proof.
+    intros Hwf H. apply add_nft_to_destination_ok in H as (cur & v & cv & Htod & _ & Hv & Hcv & -> & _ & _ & _ & Hw).
+    assert (Hb : balance E s dst (nft_key key (tok_nonce t)) = cv)
+      by (rewrite (balance_tod _ _ _ _ Htod); unfold val_or_0; rewrite Hcv; reflexivity).
+    assert (Hvt : val_or_0 t = v) by (unfold val_or_0; rewrite Hv; reflexivity).
+    rewrite Hb, Hvt.
+    split; [|split; [reflexivity|split; [eapply wr_unchanged; eauto|eapply wr_clean; eauto]]].
+    destruct (v + cv <=? 0)%Z eqn:Ev.
+    - rewrite (wr_balance_nil _ _ _ _ _ Hw). lia.
+    - rewrite (wr_balance_enc _ _ _ _ _ (wf_set_value _ _ Hwf) Hw). unfold val_or_0. simpl. lia.
+  Qed.
+End Helpers.
